@@ -141,6 +141,8 @@ def run(ck):
     muts = [e for e in add.calls(lambda e: lib.is_stl_mutation(e) and lib.is_assoc_call(e))]
     def keepfirst(e):
         nm = e.base_callee().rsplit("::", 1)[1]
+        if not lib.is_unique_assoc_call(e):
+            return False
         return nm in ("insert", "emplace", "try_emplace", "emplace_hint") or (nm == "operator[]" and not lib.is_subscript_store(add, e))
     names = sorted({e.base_callee().rsplit("::", 1)[1] for e in muts})
     ck.ob("C17-R3", "CookieJar::add/keyed-insert", bool(muts) and all(keepfirst(e) for e in muts), add.loc, add, "stores with %s" % names)
@@ -180,6 +182,11 @@ def run(ck):
         ct = (x.get("ctype") or x["type"]).replace(" ", "")
         # std::unordered_map<K, V> with the defaults prints with exactly two template arguments at each level
         custom = bool(re.search(r"Lowercase|Hash|Equal|Compare|less<|greater<", ct))
+        multi = bool(re.search(r"multimap|multiset", ct))
+        ck.ob("C17-R3", "type:CookieJar::%s/unique-keys" % x["name"], not multi, "%s:%s" % (jar["file"], x.get("line") or 0), "",
+              "unique keys at every level" if not multi else
+              "CookieJar::%s is declared %s: a multimap keeps every insertion, so a cookie added twice (a Set-Cookie line parsed again after a "
+              "roll-back, the same pair listed twice) is stored and iterated twice" % (x["name"], ct[:160]), nontrivial=False)
         ck.ob("C17-R3", "type:CookieJar::%s/exact-keys" % x["name"], not custom, "%s:%s" % (jar["file"], x.get("line") or 0), "",
               "declared %s" % ct[:120] if not custom else
               "CookieJar::%s is declared %s: names (or values) that differ are treated as the same key" % (x["name"], ct[:160]), nontrivial=False)
